@@ -44,3 +44,16 @@ Example C03_example :
   let md5 := fun x : bytes => firstn 16 (x ++ repeat 7 16) in
   pwdrecrypt md5 (repeat 1 32) [1] [2] (repeat 3 16) (repeat 4 16) [] [] <> None.
 Proof. vm_compute. discriminate. Qed.
+
+From RSP Require Import Packet Rewrite Choose Proxy Slots_proofs Dup_proofs Reply_proofs.
+(* placement in the reply path: a freshly serialised, delivered reply has gone through the MS-MPPE loop
+   (every vendor-311 attribute, Send-Key then Recv-Key, keyed server secret/forwarded authenticator ->
+   client secret/original authenticator) and, for Access-Accept, the Tunnel-Password loop (every attribute
+   69) -- the fields dl_mppe and dl_tunnel of `delivered`; C03_mppe_recrypt / C03_pwd_recrypt apply to each
+   re-encryption they perform *)
+Theorem C03_reply_pipeline : forall md5 rx cfg fs st s buf now rnd c p,
+  In (OReply c p) (snd (replyh md5 rx cfg fs st s buf now rnd)) ->
+  (exists h r, slot_of st s (nth 1 buf 0) = Some h /\ get_rq st h = Some r /\ rq_from r = Some c /\ rq_replybuf r = Some p) \/
+  delivered md5 rx cfg fs st s buf rnd c p.
+Proof. exact replyh_delivered. Qed.
+Print Assumptions C03_reply_pipeline.
